@@ -1,0 +1,41 @@
+// Copyright 2015 Google Inc. All rights reserved.
+//
+// Licensed under the Apache License, Version 2.0 (the "License");
+// you may not use this file except in compliance with the License.
+// You may obtain a copy of the License at
+//
+//     http://www.apache.org/licenses/LICENSE-2.0
+//
+// Unless required by applicable law or agreed to in writing, software
+// distributed under the License is distributed on an "AS IS" BASIS,
+// WITHOUT WARRANTIES OR CONDITIONS OF ANY KIND, either express or implied.
+// See the License for the specific language governing permissions and
+// limitations under the License.
+
+package har
+
+import (
+	"net/http"
+	"sort"
+	"strings"
+)
+
+// withTrailer adds the Trailer header to hhs. net/http moves that header out
+// of the header map into the keys of the message's Trailer field, so it would
+// otherwise be missing from the logged header list.
+func withTrailer(hhs []Header, trailer http.Header) []Header {
+	if len(trailer) == 0 {
+		return hhs
+	}
+
+	ns := make([]string, 0, len(trailer))
+	for n := range trailer {
+		ns = append(ns, n)
+	}
+	sort.Strings(ns)
+
+	return append(hhs, Header{
+		Name:  "Trailer",
+		Value: strings.Join(ns, ", "),
+	})
+}
